@@ -465,7 +465,7 @@ mod v_socket_udp {
         drain_tx(&mut s, cx, &g, &bound, hop);
     }
 
-    // @harness props=C09,C13 cfg=KG tier=q to=900 mem=8 unwind=17 opts=nomem covers=3 funcs=udp::Socket::poll_at;udp::Socket::send_slice;udp::Socket::send_with;udp::Socket::dispatch bounds=tx_metadata_slots_1..=3;_payload_ring_0..=8;_script_send_slice,_send_with,_dispatch,_send_slice,_dispatch,_dispatch_(each_may_be_a_no-op);_poll_at_probed_after_every_step
+    // @harness props=C09,C13 cfg=KG tier=q to=900 mem=8 unwind=17 opts=nomem covers=2 funcs=udp::Socket::poll_at;udp::Socket::send_slice;udp::Socket::send_with;udp::Socket::dispatch bounds=tx_metadata_slots_1..=3;_payload_ring_0..=8;_script_send_slice,_send_with,_dispatch,_send_slice,_dispatch,_dispatch_(each_may_be_a_no-op);_poll_at_probed_after_every_step
     #[kani::proof]
     pub(crate) fn udp_poll_at() {
         tx_setup!(dev, iface, cx, s, g, bound, hop);
@@ -498,7 +498,7 @@ mod v_socket_udp {
         let p6 = s.poll_at(cx);
         assert!(seen || p6 == PollAt::Ingress, "prop:c13_udp_idle_dispatch_leaves_no_deadline");
         kani::cover!(p2 == PollAt::Now && p5 == PollAt::Ingress, "queue drained: Now -> Ingress");
-        kani::cover!(!sent && g.count() == 0 && g.popped && ok && p5 == PollAt::Now && p6 == PollAt::Ingress, "only a padding record left: one idle dispatch, then Ingress");
+        // (the "only a padding record left" state is unreachable since the PacketBuffer padding fix: no witness for it)
         kani::cover!(!ok && g.count() == 2, "emit failed with two queued: still Now");
     }
 
